@@ -439,6 +439,8 @@ def run_check(modname, tier, seed, replay=None, workers=None):
     cov['stats'] = dict(sorted(total['stats'].items()))
     cov['faults_fired'] = {k[6:]: v for k, v in sorted(total['stats'].items()) if k.startswith('fault.')}
     cov['probes'] = {k[6:]: v for k, v in sorted(total['stats'].items()) if k.startswith('probe.')}
+    cov['seeds'] = {'base_seed': seed, 'derivation': 'every run description is generated from H(VERIF_SEED, property, run index); the run seed inside the description '
+                    'decides every hashed fault, delay and adversary choice; one integer decides everything', 'seeds_per_hour': cov['runs_per_hour']}
     cov['units_run'] = total['units']
     cov['units_planned'] = total['units_planned']
     cov['runs_discarded_budget'] = total['discarded']
